@@ -136,11 +136,11 @@ def cms(repo, chk):
                 if isinstance(b, ast.Attribute) and isinstance(b.value, ast.Name) and b.value.id == 'self' and b.attr == 'M':
                     w = n
             if w is not None:
-                chk.unsure('C15.2d', 'R2', f.site(w), ast.unparse(w)[:100], f'{f.name} writes cells of the matrix itself instead of going through the update routine of add(): the address it computes is a second '
+                chk.unsure('C15.2e', 'R2', f.site(w), ast.unparse(w)[:100], f'{f.name} writes cells of the matrix itself instead of going through the update routine of add(): the address it computes is a second '
                            'implementation of the hash that query() reads; that it is the same cell for every item (and every width / integer width of the intermediate sums) is not decided')
                 break
-    if not any(o.oid == 'C15.2d' for o in chk.obs):
-        chk.ok('C15.2d', 'R2', repo.mod(CMS).relpath, f'{len(cls_methods)} method(s) of CountMinSketch', 'the matrix is written by the update routine of add() only')
+    if not any(o.oid == 'C15.2e' for o in chk.obs):
+        chk.ok('C15.2e', 'R2', repo.mod(CMS).relpath, f'{len(cls_methods)} method(s) of CountMinSketch', 'the matrix is written by the update routine of add() only')
     for f in (add_s, add, repo.func(CMS, 'CountMinSketch.batch_add')):
         dv = f.node.args.defaults
         pn = f.params
@@ -217,12 +217,21 @@ def cms(repo, chk):
     # matrix: zero-initialised, written only in _add
     z = [n for n in own_nodes(init.node) if isinstance(n, ast.Assign) and any(isinstance(t, ast.Attribute) and t.attr == 'M' for t in n.targets)]
     zok = False
+    zsrc = [n.value for n in z]
+    # self.M = M  with  `if M is None: M = np.zeros(..)` before: the allocation is what the name was bound to
     for n in z:
-        for c in ast.walk(n.value):
+        if isinstance(n.value, ast.Name):
+            zsrc += [a.value for a in own_nodes(init.node) if isinstance(a, ast.Assign) and any(isinstance(t, ast.Name) and t.id == n.value.id for t in a.targets)]
+    for v_ in zsrc:
+        for c in ast.walk(v_):
             if isinstance(c, ast.Call) and m.dotted(c.func) == 'numpy.zeros':
                 a0 = c.args[0] if c.args else None
                 if isinstance(a0, ast.Tuple) and [ast.unparse(e) for e in a0.elts] == ['depth', 'width']:
                     zok = True
+                dtk = next((k.value for k in c.keywords if k.arg == 'dtype'), None)
+                if dtk is not None and ast.unparse(dtk).split('.')[-1].strip("'\"") in ('uint16', 'int16', 'uint8', 'int8', 'float16', 'float32', 'half', 'short', 'byte'):
+                    chk.bad('C15.2f', 'R8', init.site(c), ast.unparse(c)[:100], f'the count matrix is allocated as {ast.unparse(dtk)}: a cell whose accumulated weight exceeds the range of that type wraps around, so the '
+                            'estimate of a heavy item falls below its true weight and the row sums no longer equal the total')
     chk.expect(zok, 'C15.2d', 'R8', init.site(), ast.unparse(z[0]) if z else 'self.M = ...', 'matrix starts as zeros((depth, width))', 'the count matrix must start as np.zeros((depth, width))')
     writers = set()
     for f in m.funcs.values():
